@@ -269,7 +269,7 @@ theorem sde_np (enc : Enc) : ∀ (f : Nat) (ty : Ty) (tok : RTok) (op : Op) (x :
   | succ f ih =>
     intro ty tok op x hh
     cases ty with
-    | bool | i64 | u64 | i32 | u32 | f64 | f32 => simp only [sde]; exact np_map _ (sLeaf_np _ tok)
+    | bool | i64 | u64 | i32 | u32 | i16 | u16 | i8 | u8 | f64 | f32 => simp only [sde]; exact np_map _ (sLeaf_np _ tok)
     | str => simp only [sde]; exact np_map _ (sStr_np enc tok)
     | any => simp only [sde]; exact sAny_np enc _ tok x (by omega)
     | ign =>
@@ -402,7 +402,7 @@ theorem C05_textde_stream_no_panic (enc : Enc) (ty : Ty) (toks : List RTok) :
     cases hM : sMapFold true (fun _ k => sKeyName enc k) V (toks.length + 1) toks (none, none) with
     | error e => rw [hM] at this; simpa [NP] using this
     | ok p => obtain ⟨st', r⟩ := p; simp only []; exact propFinish_np st'
-  | bool | i64 | u64 | i32 | u32 | f64 | f32 | str | any | ign => simp [deStream, NP]
+  | bool | i64 | u64 | i32 | u32 | i16 | u16 | i8 | u8 | f64 | f32 | str | any | ign => simp [deStream, NP]
   | opt t => simp [deStream, NP]
   | seq t => simp [deStream, NP]
   | en vs => simp [deStream, NP]
@@ -1129,7 +1129,7 @@ theorem tde_np (enc : Enc) {toks : List TTok} (hw : WfT toks = true) :
     intro ty vk hh hv
     have rem0 : ∀ e, RemLo toks e 0 := fun _ _ _ _ _ _ => Nat.zero_le _
     cases ty with
-    | bool | i64 | u64 | i32 | u32 | f64 | f32 => simp only [tde]; exact tLeaf_np enc hw _ vk hv
+    | bool | i64 | u64 | i32 | u32 | i16 | u16 | i8 | u8 | f64 | f32 => simp only [tde]; exact tLeaf_np enc hw _ vk hv
     | str => simp only [tde]; exact np_map _ (tStr_np enc hw vk hv)
     | any =>
       simp only [tde]
@@ -1239,7 +1239,7 @@ theorem C05_textde_tape_no_panic (enc : Enc) (ty : Ty) (toks : List TTok) (hw : 
     cases hM : tMapFold toks (propEntry enc toks (tde enc toks (Ty.prop t).height t)) (toks.length + 2) 0 toks.length false (none, none) with
     | error x => rw [hM] at hfold; simpa [NP] using hfold
     | ok st => simp only []; exact propFinish_np st
-  | bool | i64 | u64 | i32 | u32 | f64 | f32 | str | any | ign => simp [deTape, NP]
+  | bool | i64 | u64 | i32 | u32 | i16 | u16 | i8 | u8 | f64 | f32 | str | any | ign => simp [deTape, NP]
   | opt t => simp [deTape, NP]
   | seq t => simp [deTape, NP]
   | en vs => simp [deTape, NP]
